@@ -246,6 +246,12 @@ func (r *Reporter) Finish() int {
 	if len(stale) > 0 {
 		cov["known_findings_not_reproduced_in_this_tier"] = stale
 	}
+	if r.Assumptions == nil {
+		r.Assumptions = []string{}
+	}
+	if r.samples == nil {
+		r.samples = []interface{}{}
+	}
 	ev := map[string]interface{}{
 		"property_id": r.Prop,
 		"tier":        r.Tier,
